@@ -52,6 +52,18 @@ def body_form(ctx, rule, inst, U, imp, fn, want, where=None, inline=(), record=N
             ok = S.match(T.canon(T.untag(view.concretise(T.canon(outs[0][2])))), T.canon(T.untag(view.concretise(S.strip_R(want))))) is None
         except (ovequiv.NotEquivalent, T.Unsupported):
             ok = False
+    if not ok and record is not None:
+        # everything expanded and specialised to the type (its record functions, its constant tables): e.g. a
+        # single-unit type whose operators go through the generic defaults, whose unit guard is constantly true there
+        from . import ovequiv
+        try:
+            view = ovequiv.TypeView(U, record)
+            outs3 = T.Evaluator(U, keep_tags=False, inline={"*"}, stop=set()).summarize(b)
+            cases = ovequiv._cases(view, outs3, {})
+            w3 = T.canon(T.untag(view.concretise(S.strip_R(want))))
+            ok = bool(cases) and not list(S.compare_cases(cases, [], lambda val: ("val", w3)))
+        except (ovequiv.NotEquivalent, T.Unsupported):
+            ok = False
     why = ""
     if not ok and want[0] == "app" and want[1].split("::")[0] in ("HasRefUnit", "Quantity") and len(b["params"]) == len(want[3]):
         # not the plain forwarding call: the body may still compute, case by case, what that default method computes
